@@ -184,12 +184,12 @@ NoCtl(s) == \A i \in 1..Len(s) :
                /\ s[i] # 127
                /\ ~(s[i] = 194 /\ i < Len(s) /\ s[i + 1] < 160)
 
-(* expected option field: <<number, value, alternative value>>; the           *)
-(* alternative is printed as 0 when there is none                            *)
+(* expected option field: <<number, value>>, or <<number, value, alternative *)
+(* value>> where two readings are admissible                                 *)
 Field(o) ==
-    IF ONum(o) \in UintOpts THEN << ONum(o), StripZeros(OVal(o)), 0 >>
-    ELSE IF ONum(o) \in StringOpts \cup OpaqueOpts THEN << ONum(o), OVal(o), 0 >>
-    ELSE IF StripZeros(OVal(o)) = OVal(o) THEN << ONum(o), OVal(o), 0 >>
+    IF ONum(o) \in UintOpts THEN << ONum(o), StripZeros(OVal(o)) >>
+    ELSE IF ONum(o) \in StringOpts \cup OpaqueOpts THEN << ONum(o), OVal(o) >>
+    ELSE IF StripZeros(OVal(o)) = OVal(o) THEN << ONum(o), OVal(o) >>
     ELSE << ONum(o), OVal(o), StripZeros(OVal(o)) >>
 
 Fields(opts) == [i \in 1..Len(opts) |-> Field(opts[i])]
@@ -201,19 +201,24 @@ StringsClass(opts) ==
 
 (* What the property demands for a byte string:                              *)
 (*   <<"wf", type, code, mid, token, fields, payload>>   exactly these fields *)
-(*   <<"badutf8" | "ctlchars", ... same ...>>            framing is fine, a   *)
-(*        string value is not: UnparsableMessage or a round-tripping message  *)
+(*   <<"badutf8" | "ctlchars" | "emptyplus", ... same ...>>                   *)
+(*        the framing is fine but a string value is not, or the code is 0.00  *)
+(*        (Empty) and bytes follow the message ID, which RFC 7252 section 4.1 *)
+(*        makes a format error: UnparsableMessage or a round-tripping message *)
 (*   <<"rej", reason>>                                   format error: same   *)
 Classify(b) ==
     LET v == Parse(b)
     IN  IF ~IsOk(v) THEN v
-        ELSE << StringsClass(v[6]), v[2], v[3], v[4], v[5], Fields(v[6]), v[7] >>
+        ELSE << IF v[3] = 0 /\ Len(b) > 4 THEN "emptyplus" ELSE StringsClass(v[6]),
+                v[2], v[3], v[4], v[5], Fields(v[6]), v[7] >>
 
-(* 1 iff b is well-formed and serialising the expected fields gives b back   *)
-(* (always, unless a uint value was sent with leading zero bytes)            *)
+(* 1 iff b is well-formed, no option value has an alternative reading, and   *)
+(* serialising the expected fields gives b back (always, unless a uint value *)
+(* was sent with leading zero bytes)                                         *)
 Reserialises(b) ==
     LET c == Classify(b)
     IN  IF c[1] # "wf" THEN 0
+        ELSE IF \E i \in 1..Len(c[6]) : Len(c[6][i]) = 3 THEN 0
         ELSE IF EncMsg(<< c[2], c[3], c[4], c[5],
                           [i \in 1..Len(c[6]) |-> << c[6][i][1], c[6][i][2] >>], c[7] >>) = b
              THEN 1 ELSE 0
